@@ -347,3 +347,42 @@ Proof.
   - apply memN_In. exact (subsetN_in _ _ _ Hsub Hel).
   - apply memN_In. exact Hel.
 Qed.
+
+(* a poll touches only the entries of the txids it returns: every other txid keeps its request
+   time, its delivery flag and its list of announcers - in particular a txid that was eligible
+   for this node and was not returned is still eligible for it *)
+Lemma grant_all_other n now ts : forall s t, ~ In t ts -> lookup t (grant_all n now ts s) = lookup t s.
+Proof.
+  induction ts as [|x ts IH]; intros s t Hn; [reflexivity|].
+  cbn [grant_all]. assert (Hx : t <> x) by (intro; subst; apply Hn; left; reflexivity).
+  assert (Hr : ~ In t ts) by (intro; apply Hn; right; assumption).
+  destruct (lookup x s) as [e|]; [|apply IH; exact Hr].
+  rewrite (IH _ t Hr). apply lookup_update_other. exact Hx.
+Qed.
+
+Theorem poll_touches_only_granted n now T max chosen s t ok granted :
+  snd (step s (OGet n now T max chosen)) = RRequests ok granted -> ~ In t granted ->
+  lookup t (fst (step s (OGet n now T max chosen))) = lookup t s.
+Proof.
+  cbn [step snd fst]. intros H Hn. inversion H; subst. apply grant_all_other. exact Hn.
+Qed.
+
+Lemma eligible_intro n now T s t e : In (t, e) s -> e_received e = false ->
+  memN n (e_nodes e) = true -> expired now T e = true -> In t (eligible n now T s).
+Proof.
+  intros Hin H1 H2 H3. unfold eligible. apply in_map_iff. exists (t, e). split; [reflexivity|].
+  apply filter_In. split; [exact Hin|]. cbn [snd]. rewrite H1, H2, H3. reflexivity.
+Qed.
+
+(* ... so what a poll did not return stays requestable from that peer (the clause "requestable
+   from each other peer that announced it, until delivered" for polls cut short by [max]) *)
+Theorem unreturned_stays_eligible n now T max chosen s t ok granted : wf s ->
+  snd (step s (OGet n now T max chosen)) = RRequests ok granted ->
+  In t (eligible n now T s) -> ~ In t granted ->
+  In t (eligible n now T (fst (step s (OGet n now T max chosen)))).
+Proof.
+  intros Hw Hs He Hn. apply eligible_spec in He as (e & Hin & H1 & H2 & H3).
+  pose proof (lookup_in t e s Hw Hin) as Hl.
+  rewrite <- (poll_touches_only_granted n now T max chosen s t ok granted Hs Hn) in Hl.
+  apply in_lookup in Hl. exact (eligible_intro n now T _ t e Hl H1 H2 H3).
+Qed.
